@@ -50,7 +50,7 @@ def gen_history(r, k):
     atoms = [list(a) for a in base["atoms"]]
     cases0 = [dict(c) for c in cs]          # the configuration as first written
     for e in range(r.randint(3, 5)):
-        kind = r.choice(["modify", "modify", "flags", "move", "nopbc", "badmodify", "period"])
+        kind = r.choice(["modify", "modify", "flags", "move", "nopbc", "badmodify", "period", "setparam"])
         line = None; ev = None
         if kind == "flags" and ncomp >= 2:
             fl = [r.randint(0, 1) for _ in cs]
@@ -68,6 +68,12 @@ def gen_history(r, k):
             confs = ["" for _ in cs]
             confs[j] = "period %s;wrapAround %s" % (G.g17(cs[j]["params"]["period"]), G.g17(cs[j]["params"]["wrap"]))
             line = "M | " + " ~ ".join(confs)
+        elif kind == "setparam" and ncomp == 1 and default:
+            # colvar::set_cvc_param (allowed for variables that were single-component with unit coefficient at initialisation)
+            if vector or r.random() < 0.6:
+                co = r.choice([2.0, -1.0, 0.5, 4.0]); line = "S componentCoeff " + G.hx(co); ev = ["M", "1", G.hx(co), "-"]
+            else:
+                ex = r.choice([2, 3, 1, 0]); line = "S componentExp %d" % ex; ev = ["M", "1", "-", "%d" % ex]
         elif kind == "move":
             for _ in range(30):
                 moved = [[a[0], a[1]] + [x + r.gauss(0, 0.3) for x in a[2:5]] for a in atoms]
@@ -115,7 +121,7 @@ def hist_model_line(h, st):
 
 
 PROPS = ["coq/C02/Properties_C02.v", "coq/C02/Properties_C02_rot.v", "coq/C02/Properties_C02_sym.v", "coq/C02/Properties_C02_fit.v",
-         "coq/C02/Properties_C02_load.v", "coq/C02/Properties_C02_path.v", "coq/C02/Properties_C02_sup.v"]
+         "coq/C02/Properties_C02_load.v", "coq/C02/Properties_C02_path.v", "coq/C02/Properties_C02_sup.v", "coq/C02/Properties_C02_cell.v"]
 EXTRACT = "coq/C02/Extract_C02.v"
 DRIVER = "props/C02/driver.ml"
 UNIT = {"c02unit": ["props/C02/unit.cpp"]}
@@ -678,9 +684,73 @@ def check(run):
             if well_conditioned(c):
                 tie_cases.append([c])
                 break
-    for cs in tie_cases:
-        i = impl.add(G.impl_line(cs)); m = mod.add(G.model_line(cs))
+    # scales of the data: every length of the system (coordinates, cell, cut-offs) multiplied by 1e-4 .. 1e4
+    for comp in ("distance", "distanceVec", "distanceZ", "distanceXY", "distanceInv", "gyration", "inertia", "angle", "dihedral",
+                 "coordNum", "selfCoordNum", "groupCoord", "hBond", "dipoleMagnitude", "cartesian"):
+        for k in range(2 * scale):
+            c = gen_until(r, comp, generic=(k % 2 == 1))
+            if c is None:
+                continue
+            sc = r.choice([1e-4, 1e-2, 1e2, 1e4]) if k % 2 == 0 else 2.0 ** r.choice([-20, -10, 10, 20])
+            c["atoms"] = [[a[0], a[1]] + [x * sc for x in a[2:5]] for a in c["atoms"]]
+            if c.get("cell"):
+                c["cell"] = [x * sc for x in c["cell"]]
+            pr = c["params"]
+            if "r0" in pr:
+                pr["r0"] = pr["r0"] * sc
+            if pr.get("r0v") is not None:
+                pr["r0v"] = [x * sc for x in pr["r0v"]]
+            pr.pop("tol", None)
+            c["scaled"] = sc
+            tie_cases.append([c])
+    for n_t, cs in enumerate(tie_cases):
+        il = G.impl_line(cs)
+        if n_t % 9 == 4:
+            il = "EF" + il[1:]            # the same configuration read from a file
+        if n_t % 11 == 5:
+            il = il.replace("colvar {;  name c;", "colvar {;", 1)      # an unnamed variable (default name)
+        i = impl.add(il); m = mod.add(G.model_line(cs))
         jobs.append(("tie", cs, i, m))
+    # sessions: (a) a second variable on the same atoms is deleted, (b) a rejected configuration in the middle
+    for k in range(10 * scale):
+        ca = gen_until(r, r.choice(HIST_SCALAR), generic=(k % 2 == 1), dup=0.1)
+        if ca is None:
+            continue
+        ca["params"].pop("tol", None)
+        cb = None
+        for _ in range(40):
+            comp = r.choice(HIST_SCALAR); prb = gen_params(r, comp, False); prb.pop("tol", None)
+            if comp in ("distanceZ", "distanceXY") and prb.get("axis") is None:
+                prb["axis"] = [0.0, 0.0, 1.0]
+            grp = [list(g) for g in ca["groups"]][:NGROUPS[comp]] if (len(ca["groups"]) >= NGROUPS[comp] and comp not in DISJOINT and r.random() < 0.5) else \
+                G.gen_groups(r, len(ca["atoms"]), NGROUPS[comp], disjoint=(comp in DISJOINT), minsize=2 if comp in ("selfCoordNum", "gyration", "inertia", "dipoleMagnitude") else 1, dup=0.1)
+            cb = {"comp": comp, "pbc": ca["pbc"], "params": prb, "groups": grp, "atoms": ca["atoms"], "cell": ca["cell"]}
+            if comp in ("selfCoordNum", "gyration", "inertia", "dipoleMagnitude") and len(G.dedup(grp[0])) < 2:
+                cb = None; continue
+            if well_conditioned(cb):
+                break
+            cb = None
+        if cb is None:
+            continue
+        moved = None
+        for _ in range(30):
+            mv = [[a[0], a[1]] + [x + r.gauss(0, 0.3) for x in a[2:5]] for a in ca["atoms"]]
+            if well_conditioned(dict(ca, atoms=mv)) and well_conditioned(dict(cb, atoms=mv)):
+                moved = mv; break
+        if moved is None:
+            continue
+        conf2 = ";".join(G.config_of([ca], "c") + G.config_of([cb], "d"))
+        mode = "delete" if k % 2 == 0 else "rejected"
+        if mode == "delete":
+            lines = ["E " + " ".join(G.sys_tokens(ca)) + " | " + conf2, "D d", G.pos_line(moved)]
+            mlines = [G.model_line([ca]), G.model_line([cb]), G.model_line([dict(ca, atoms=moved)])]
+        else:
+            bad = r.choice(["colvar {;  name bad;  distance {;    group1 {;      atomNumbers 1 %d;    };    group2 {;      atomNumbers 2;    };  };}" % (len(ca["atoms"]) + 5),
+                            "colvar {;  name bad;  distance {;    group1 {;      atomNumbers 1;    };    group2 {;      atomNumbers 2;    };    noSuchKeyword 3;  };}",
+                            "colvar {;  name c;  distance {;    group1 {;      atomNumbers 1;    };    group2 {;      atomNumbers 2;    };  };}"])
+            lines = [G.impl_line([ca]), "C | " + bad, G.pos_line(moved)]
+            mlines = [G.model_line([ca]), G.model_line([dict(ca, atoms=moved)])]
+        jobs.append(("session", {"mode": mode, "i": [impl.add(l) for l in lines], "m": [mod.add(l) for l in mlines], "ca": ca, "cb": cb}, None, None))
     # arithmetic path variables (aspath, azpath) in Cartesian space: value model
     sdirp = os.path.join(V.BUILD, "scratch", "C02paths"); os.makedirs(sdirp, exist_ok=True)
     for comp in ("aspath", "azpath"):
@@ -750,7 +820,7 @@ def check(run):
         if c is None:
             continue
         pr = c["params"]; pr["tol"] = r.choice([0.001, 0.0078125, 0.05]); pr.pop("center", None)
-        pr["plfreq"] = r.choice([2, 3, 5])
+        pr["plfreq"] = r.choice([2, 3, 5, 6, 7])
         g2ids = set(G.dedup(c["groups"][1]))
         def far(atoms, off):
             return [[a[0], a[1], a[2] + (off if (i + 1) in g2ids else 0.0), a[3], a[4]] for i, a in enumerate(atoms)]
@@ -771,7 +841,7 @@ def check(run):
                     ok = False
                 frames.append(fr)
             runs.append(frames)
-            starts.append(0 if j == 0 else r.choice([1, 2, 3, 4, 7, 11, 13, 10, 6]))
+            starts.append(0 if j == 0 else r.choice([1, 2, 3, 4, 7, 11, 13, 10, 6, 2**31 + 3, 2**32 + 7, 2**53 + 1, 2**62 + 5]))
         if not ok:
             continue
         idx = []; fresh = []
@@ -803,7 +873,7 @@ def check(run):
         runs = [[spread, spread], [c["atoms"], c["atoms"]]] if k % 2 == 0 else [[c["atoms"], c["atoms"]], [spread, spread], [c["atoms"]]]
         if not all(well_conditioned(dict(c, atoms=fr)) for frames in runs for fr in frames):
             continue
-        starts = [0] + [r.choice([1, 2, 3, 4, 7, 11, 13]) for _ in runs[1:]]
+        starts = [0] + [r.choice([1, 2, 3, 4, 7, 11, 13, 2**31 + 1, 2**32 + 5, 2**53 + 3, 2**62 + 1]) for _ in runs[1:]]
         idx = []
         for j, frames in enumerate(runs):
             for f, fr in enumerate(frames):
@@ -814,7 +884,14 @@ def check(run):
                         impl.add("R %d" % starts[j])
                     idx.append(impl.add(G.pos_line(fr)))
         fresh = [impl.add(G.impl_line([c], atoms=frames[0])) for frames in runs]
-        jobs.append(("plruns", {"case": c, "runs": runs, "starts": starts, "idx": idx, "fresh": fresh}, None, None))
+        t0 = G.model_tokens(c); gpos = t0.index("G")
+        t = ["selfCoordNumRuns"] + t0[1:6] + ["%d" % pr["plfreq"]] + t0[6:gpos] + ["%d" % len(runs)]
+        for frames in runs:
+            t.append("%d" % len(frames))
+            for fr in frames:
+                tf = G.model_tokens(dict(c, atoms=fr)); t += tf[tf.index("G"):]
+        m = mod.add(" ".join(t))
+        jobs.append(("plruns", {"case": c, "runs": runs, "starts": starts, "idx": idx, "fresh": fresh}, None, m))
     # eigenvector with differenceVector / normalizeVector
     for k in range(8 * scale):
         c = gen_ref_case(r, "eigenvector")
@@ -984,12 +1061,14 @@ def check(run):
                                   obj["listing"], obj["listing"][0], obj["entries"][obj["listing"][0]], a[:3] if a else iout[obj["i"][1]][:80]), rep)
             if a is not None and b is not None and a != b:
                 run.mismatch("value:load_coords", impl.lines[obj["i"][1]], iout[obj["i"][1]][:200], mout[obj["m"][1]][:200])
+        elif kind == "session":
+            judge_session(run, obj, impl.lines, iout, mod.lines, mout)
         elif kind == "history":
             judge_history(run, obj, i, impl.lines, iout, mod.lines, mout)
         elif kind == "plruns":
             c = obj["case"]; f = c["params"]["plfreq"]
             run.count("plruns/" + case_key(c) + "/%s" % obj["starts"], True)
-            run.dist("tie:coordNum:pairlist:runs")
+            run.dist("tie:%s:pairlist:runs" % c["comp"])
             vals = [parse_impl(iout[k]) for k in obj["idx"]]
             b = parse_model(mout[m]) if m is not None else None
             lo = min(obj["idx"]); hi = max(obj["idx"])
@@ -1009,7 +1088,7 @@ def check(run):
                         break
                     pos += len(frames)
                 if m is not None and (b is None or not vclose(a, b, TOL)):
-                    run.mismatch("value:coordNum:pairlist:runs", impl.lines[lo][:200], a, b)
+                    run.mismatch("value:%s:pairlist:runs" % c["comp"], impl.lines[lo][:200], a, b)
         elif kind == "pairlist":
             a = parse_impl(iout[i]); b = parse_model(mout[m]); a0 = parse_impl(iout[obj["i"][0]])
             run.count("pairlist/" + case_key(obj["case"]) + "/%g" % obj["amp"], True)
@@ -1076,6 +1155,30 @@ def run_resilient(exe, lines, env=None):
         start = k + 1
     out += ["crash"] * (len(lines) - len(out))
     return out[:len(lines)], crashes
+
+
+def judge_session(run, obj, ilines, iout, mlines, mout):
+    run.count("session/%s/%s" % (obj["mode"], ilines[obj["i"][0]][-60:]), True)
+    run.dist("session:" + obj["mode"])
+    lines = [ilines[k] for k in obj["i"]]
+    rep = replay_obj("lines", lines, {"model_lines": [mlines[k] for k in obj["m"]]})
+    outs = [iout[k] for k in obj["i"]]
+    mo = [parse_model(mout[k]) for k in obj["m"]]
+    first = parse_impl(outs[0]); last = parse_impl(outs[2])
+    if obj["mode"] == "delete":
+        if first is None or len(first) != 2 or not close(first[0], mo[0][0]) or not close(first[1], mo[1][0]):
+            run.violation("session:two-variables", "two variables on the same atoms: values %s, definitions %r %r" % (outs[0][:80], mo[0], mo[1]), rep); return
+        if not outs[1].startswith("ok"):
+            run.violation("session:delete", "deleting the second variable fails: %s" % outs[1][:80], rep); return
+        if last is None or len(last) != 1 or not close(last[0], mo[2][0]):
+            run.violation("session:value-after-delete", "after deleting the other variable that used the same atoms the value is %s, definition %r" % (outs[2][:80], mo[2]), rep)
+    else:
+        if first is None or len(first) != 1 or not close(first[0], mo[0][0]):
+            run.mismatch("value:" + obj["ca"]["comp"], lines[0][:100], outs[0], mo[0]); return
+        if not outs[1].startswith("err"):
+            run.violation("session:bad-config-accepted", "an invalid configuration was accepted in the middle of the session: %s" % outs[1][:80], rep); return
+        if last is None or len(last) != 1 or not close(last[0], mo[1][0]):
+            run.violation("session:value-after-rejected-config", "after a rejected configuration the session reports %s for the existing variable, definition %r (%s)" % (outs[2][:80], mo[1], outs[1][:40]), rep)
 
 
 def judge_history(run, h, i0, ilines, iout, mlines, mout):
@@ -1658,7 +1761,21 @@ def judge_rot(run, ro, ilines, iout, mlines, mout):
 def gen_misc(r, n):
     out = []
     for k in range(n):
-        kind = r.choice(["qsign", "qsign", "pd", "pd", "pd"])
+        kind = r.choice(["qsign", "qsign", "pd", "pd", "pd", "pdt", "pdt"])
+        if kind == "pdt":
+            generic = r.random() < 0.3
+            dy = (lambda lo, hi: r.uniform(lo, hi)) if generic else (lambda lo, hi: V.dyadic(r, lo, hi, bits=2))
+            L = [r.choice([8.0, 16.0]) for _ in range(3)]
+            a = [L[0], 0.0, 0.0]; b = [dy(-3, 3), L[1], 0.0]; c = [dy(-3, 3), dy(-3, 3), L[2]]
+            if r.random() < 0.3:      # a general orientation: the same cell turned by an axis rotation
+                M = r.choice(G.AXIS_ROT); a, b, c = G.matvec(M, a), G.matvec(M, b), G.matvec(M, c)
+            p1 = [V.dyadic(r, -30, 30) for _ in range(3)]; p2 = [V.dyadic(r, -30, 30) for _ in range(3)]
+            n1 = [r.randint(-3, 3) for _ in range(3)]
+            p2s = [p2[k] + n1[0] * a[k] + n1[1] * b[k] + n1[2] * c[k] for k in range(3)]
+            f = lambda q1, q2: "PDT %s %s %s %s %s" % tuple(" ".join(G.hx(x) for x in v) for v in (a, b, c, q1, q2))
+            out.append({"kind": "pdt", "cellv": [a, b, c], "p1": p1, "p2": p2, "n": n1, "generic": generic,
+                        "impl": [f(p1, p2), f(p1, p2s)], "model": [f(p1, p2), f(p1, p2s)]})
+            continue
         if kind == "qsign":
             q = G.random_unit_quat(r) if r.random() < 0.7 else r.choice([[1.0, 0.0, 0.0, 0.0], [0.0, 1.0, 0.0, 0.0], [0.5, 0.5, 0.5, 0.5], [0.0, 0.0, 0.6, 0.8]])
             ax = r.choice([[0.0, 0.0, 1.0], [1.0, 0.0, 0.0], [0.0, 1.0, 0.0]])
@@ -1672,6 +1789,8 @@ def gen_misc(r, n):
             p1 = [V.dyadic(r, -40, 40) for _ in range(3)]; p2 = [V.dyadic(r, -40, 40) for _ in range(3)]
             if r.random() < 0.3 and not generic:   # exactly half a cell apart in one direction
                 j = r.randrange(3); p2[j] = p1[j] + cell[j] / 2 + r.randint(-2, 2) * cell[j]
+            elif r.random() < 0.25 and not generic:  # very far apart: 2^20 .. 2^40 cell lengths (still exact in binary64)
+                j = r.randrange(3); p2[j] = p2[j] + r.choice([1, -1]) * 2.0 ** r.choice([20, 30, 31, 32, 35, 40]) * cell[j]
             n1 = [r.randint(-3, 3) for _ in range(3)]
             p2s = [x + a * L for x, a, L in zip(p2, n1, cell)]
             f = lambda a, b: "PD %d %s %s %s" % (hc, " ".join(G.hx(x) for x in cell), " ".join(G.hx(x) for x in a), " ".join(G.hx(x) for x in b))
@@ -1689,6 +1808,27 @@ def judge_misc(run, ms, ilines, iout, mlines, mout):
     rep = replay_obj("lines", lines, {"model_lines": [mlines[m] for m in ms["m"]]})
     if any(x is None for x in a):
         run.violation("misc:%s:error" % ms["kind"], "no numeric result: %s" % [iout[i][:80] for i in ms["i"]], rep)
+        return
+    if ms["kind"] == "pdt":
+        a3, b3, c3 = ms["cellv"]
+        # reduced coordinates by Cramer's rule (python floats)
+        det = G.dot(G.cross(b3, c3), a3)
+        red = lambda v: [G.dot(G.cross(b3, c3), v) / det, G.dot(G.cross(c3, a3), v) / det, G.dot(G.cross(a3, b3), v) / det]
+        d = G.sub(ms["p2"], ms["p1"])
+        amb = any(abs((x + 0.5) - round(x + 0.5)) < 1e-7 for x in red(d)) and ms["generic"]
+        if amb:
+            run.dist("boundary-ambiguous"); return
+        for k in range(2):
+            if not vclose(a[k], b[k], 1e-9):
+                run.mismatch("value:position_distance:triclinic", lines[k], iout[ms["i"][k]], mout[ms["m"][k]])
+        if not vclose(a[0], a[1], 1e-9):
+            run.violation("min-image:triclinic:lattice", "position_distance in the cell %r changes when the second position is moved by the lattice vector %r: %r vs %r" % (ms["cellv"], ms["n"], a[0], a[1]), rep)
+        rr = red(a[0])
+        if any(not (-0.5 - 1e-9 <= x <= 0.5 + 1e-9) for x in rr):
+            run.violation("min-image:triclinic:range", "position_distance %r has reduced coordinates %r outside [-1/2, 1/2] in the cell %r" % (a[0], rr, ms["cellv"]), rep)
+        rd = red(G.sub(d, a[0]))
+        if any(abs(x - round(x)) > 1e-8 for x in rd):
+            run.violation("min-image:triclinic:congruent", "position_distance %r is not the plain difference %r minus a lattice vector of %r" % (a[0], d, ms["cellv"]), rep)
         return
     if ms["kind"] == "qsign":
         for k in range(2):
